@@ -133,6 +133,9 @@ VARIANTS = [
     ("C16", "silent", RAR, 'data.rar_parameters["start_iter"] <= i,', 'i >= data.rar_parameters["start_iter"],', 0),
     ("C17", "fire", RAR, "                (mse_on_s.shape[0] - selected_sample_size,),", "                (0,),", 0),
     ("C20", "fire", PRM, "    params = eqx.tree_at(\n        lambda p: p.eq_params,\n        params,", "    params.eq_params.update({k: v for k, v in param_batch_dict.items()})\n    params = eqx.tree_at(\n        lambda p: p.eq_params,\n        params,", 0),
+    # ---- round 8: key of the parameter loader not stored back; batch-composition helper writing into its argument
+    ("C09", "fire", DG, "            lambda m: (m.keys, m.param_n_samples, m.curr_param_idx),\n            self,\n            new_attributes,", "            lambda m: (m.param_n_samples, m.curr_param_idx),\n            self,\n            new_attributes[1:],", 0),
+    ("C20", "fire", DG, "    return eqx.tree_at(\n        lambda m: m.param_batch_dict,\n        batch,\n        param_batch_dict,", "    if batch.param_batch_dict is not None:\n        batch.param_batch_dict.update(param_batch_dict)\n        return batch\n    return eqx.tree_at(\n        lambda m: m.param_batch_dict,\n        batch,\n        param_batch_dict,", 0),
 ]
 
 
